@@ -444,6 +444,9 @@ func (c *FuncCtx) evalIndex(st *State, n *ast.IndexExpr) Value {
 			c.sliceFacts(st, r)
 			return r
 		}
+		if _, isInt := intKindOf(b.Elem); !isInt && !isBoolType(b.Elem) {
+			return c.elemOf(st, b, i)
+		}
 		return c.readCell(st, b.Elem, Add(b.Addr, i))
 	case WinV:
 		i := c.evalInt(st, n.Index)
